@@ -2,7 +2,8 @@
      run <T> <K> <CAP> <op> ...
    T: v Vec, b BytesMut, a Array<CAP>, s StreamTarget<Vec>;  K: n none, s static, t tree, h hash
    ops: q:<name>:<type>:<class>   r:<owner>:<type>:<class>:<ttl>:<pfx>:<items>
-        o:<udp>:<opts>   g<k>   B   w   l<n>   L
+        o:<udp>:<opts> | o:<udp>:<rc|->:<ver>:<do>:<opts>   h<8 hex>   g<k>   B   w   l<n>   L
+   pfx: 0 length known to the type, 1 length patched in afterwards, 2 typed record data of the library (= 0)
    names are uncompressed wire format in hex; items: b<hex> z<count>.<hh> n<name> u<name>
    output: R=<word,..> C=qd,an,ns,ar N=<len> M=<hex | #h1.h2> V=<ok|bad> *)
 let split c s = if s = "" then [] else String.split_on_char c s
@@ -33,6 +34,12 @@ let item_of (s : string) : ritem =
    compositions of single steps (g<k>: .question()/.answer()/.authority()/
    .additional(); B: .builder().question()).  sec tracks the current section. *)
 let rec rep n x = if n <= 0 then [] else x :: rep (n - 1) x
+let mk_opt udp rc ver dok opts : op =
+  let one s = match split '.' s with
+    | [code; data] -> let d = bytes_of_hex data in ((ni code, n_of_int (List.length d)), d)
+    | _ -> failwith "bad option" in
+  OpOpt ({ oh_udp = ni udp; oh_rc = (if rc = "-" then None else Some (ni rc)); oh_ver = ni ver; oh_do = (dok = "1") },
+         (if opts = "-" then [] else List.map one (split ',' opts)))
 let ops_of (sec : int ref) (w : string) : op list =
   match split ':' w with
   | ["q"; nm; ty; cl] -> [OpQ { q_name = name_of_hex nm; q_type = ni ty; q_class = ni cl }]
@@ -40,18 +47,16 @@ let ops_of (sec : int ref) (w : string) : op list =
       [OpR { r_owner = name_of_hex nm; r_type = ni ty; r_class = ni cl; r_ttl = ni ttl;
              r_prefixed = (pfx = "1");
              r_data = (if items = "-" then [] else List.map item_of (split ',' items)) }]
-  | ["o"; udp; opts] ->
-      let one s = match split '.' s with
-        | [code; data] -> let d = bytes_of_hex data in ((ni code, n_of_int (List.length d)), d)
-        | _ -> failwith "bad option" in
-      [OpOpt (ni udp, (if opts = "-" then [] else List.map one (split ',' opts)))]
-  | ["B"] -> let k = !sec in sec := 0; rep k OpBack @ [OpRewind]
+  | ["o"; udp; opts] -> [mk_opt udp "-" "0" "0" opts]
+  | ["o"; udp; rc; ver; dok; opts] -> [mk_opt udp rc ver dok opts]
+  | ["B"] -> let k = !sec in sec := 0; builder_ops (n_of_int k)
   | ["w"] -> [OpRewind]
   | ["L"] -> [OpLimit None]
   | [x] when String.length x >= 2 && x.[0] = 'g' ->
       let k = min 3 (int_of_string (String.sub x 1 (String.length x - 1))) in
       let cur = !sec in sec := k;
-      if k >= cur then rep (k - cur) OpNext else rep (cur - k) OpBack
+      conv_ops (n_of_int cur) (n_of_int k)
+  | [x] when String.length x = 9 && x.[0] = 'h' -> [OpHdr (bytes_of_hex (String.sub x 1 8))]
   | [x] when String.length x >= 2 && x.[0] = 'l' -> [OpLimit (Some (ni (String.sub x 1 (String.length x - 1))))]
   | _ -> failwith ("bad op " ^ w)
 
